@@ -337,34 +337,17 @@ def r64(ctx, prog):
 
 def r66(ctx, prog):
     try:
-        t2o, f, place, dsp = tables.token_to_operator(prog)
+        sem = tables.token_semantics(prog)
     except tables.TableError as e:
-        ctx.unrecognised('R6.6', 'token-match', 'shape', str(e))
+        ctx.unrecognised('R6.6', 'token-semantics', 'shape', str(e))
         return
-    tok = prog.adt(tables.TOKEN)
+    f = sem['fn']
     for tv in ('Float', 'Int', 'Boolean', 'String'):
-        blocks = t2o[tv]['blocks']
-        entry = [b for b in blocks if any(p not in blocks for p in f.pred(b))]
-        iv = [v for v in tok['variants'] if v['name'] == tv][0]
-
-        def hook(it, fn, t, args):
-            c = t['callee']
-            if fn is f and (c['name'] == 'pop' or (c.get('local') and c['name'] in ('is_sequence', 'insert_back_prioritized'))):
-                return Stop(None)
-            return None
-        env = {place['l']: ADT(tok['path'], iv['idx'], tv, [SYM('payload')])}
-        out = []
-        if len(entry) == 1:
-            Interp(prog, hook=hook)._run(f, entry[0], env, 0, out, (), {})
-        built = set()
-        for ret, eff in out:
-            for e in eff:
-                if short(e[0]).endswith('tree::Node::new'):
-                    built.add(e[2][0])
+        built = set(sem['first'][tv]) | set(sem['after_value'][tv])
         want = None
         if len(built) == 1:
             b = list(built)[0]
-            want = is_adt(b, 'operator::Operator', 'Const') and is_adt(b[4][0], 'value::Value', tv) and b[4][0][4] == (SYM('payload'),)
+            want = is_adt(b, 'operator::Operator', 'Const') and is_adt(b[4][0], 'value::Value', tv) and b[4][0][4] == (SYM('p'),)
         ctx.check(bool(want), 'R6.6', 'token:' + tv, 'payload', 'Token::%s(x) builds a Const node holding Value::%s(x) with the payload unchanged (built %s)' % (tv, tv, [fmt(b) for b in built]), span=f.span)
     ev = prog.fn('operator::Operator::<NumericTypes>::eval')
     op = prog.adt(tables.OPERATOR)
